@@ -78,6 +78,7 @@ func (s *Sim) runSyncPhase() {
 			s.quiesce()
 			s.collect()
 		}
+		n.stalled = false
 		if n.led.flush() > 0 {
 			s.quiesce()
 			s.collect()
